@@ -4,7 +4,8 @@
   with the oracle inputs taken from the line instead of `Codec`/`may`), and evaluates the specification predicate on the implementation's own trace.
 
   Output: MISMATCH line=<n> case=<k> op=<op> impl=<..> model=<..> · SPECFAIL line=<n> case=<k> clause=<name>
-          (clause `no_crash`: the harness reported that the node process died in an operation) ·
+          (clause `confirmation_not_beyond_received kind=<replay_file_name|other>` is printed independently of the others;
+           clause `no_crash`: the harness reported that the node process died in an operation) ·
           BADLINE line=<n> · STATS k=v …
 -/
 import IcingaModel.Common.Proto
@@ -111,6 +112,10 @@ structure DSt where
   nontrivial : Nat := 0
   mismatches : Nat := 0
   specfails : Nat := 0
+  caseConfReplay : Bool := false
+  caseConfOther : Bool := false
+  confReplay : Nat := 0
+  confOther : Nat := 0
   died : Nat := 0
 
 def limit : Nat := 50000
@@ -135,6 +140,14 @@ def finish (d : DSt) (n : Nat) (op : String) (node : DNode) (implObs modelObs : 
   d := { d with node := node }
   match ev, parseIntList implPos with
   | some ev, some pos =>
+    -- clause confirmation_not_beyond_received, evaluated on its own: once per case and kind
+    match confirmStep d.sp ⟨ev, pos⟩ with
+    | some k =>
+      let seen := if k == .replayFileName then d.caseConfReplay else d.caseConfOther
+      if !seen then IO.println s!"SPECFAIL line={n} case={d.caseNo} clause=confirmation_not_beyond_received kind={k.name}"
+      d := if k == .replayFileName then { d with caseConfReplay := true, confReplay := d.confReplay + 1 }
+           else { d with caseConfOther := true, confOther := d.confOther + 1 }
+    | none => pure ()
     let (bad, sp') := specStep d.sp ⟨ev, pos⟩
     d := { d with sp := sp' }
     match bad with
@@ -188,7 +201,8 @@ def handle (d : DSt) (n : Nat) (line : String) : IO DSt := do
       let peers := [({ related := true, dur := dA * usec, lpos := 0 } : Peer), { related := true, dur := dB * usec, lpos := 0 },
         { related := false, dur := dC * usec, lpos := 0 }]
       return { d with node := { snd := start now {}, peers := peers, paFirst := pf, table := [] }, sp := specInit durs,
-                      caseNo := d.caseNo + 1, caseFailed := false, caseDelivered := false }
+                      caseNo := d.caseNo + 1, caseFailed := false, caseDelivered := false,
+                      caseConfReplay := false, caseConfOther := false }
     | _, _, _, _, _ => bad
   | ["relay", now, id, sec], [frame, live, nf, pos] =>
     match parseInt? now, parseNat? id, parseSec sec, unhex frame, parseNat? live, parseOptInt nf with
@@ -256,7 +270,7 @@ def handle (d : DSt) (n : Nat) (line : String) : IO DSt := do
       let mOut := fun i => match timerSetPos (node.peer i) with | some v => [OutObs.l v] | none => []
       let d := { d with deletions := d.deletions + del.length }
       finish d n "timer" { node with snd := s' } s!"{showNames del} {showOut oA} {showOut oB} {showOut oC}"
-        s!"{showNames mDel} {showOut (mOut 0)} {showOut (mOut 1)} {showOut (mOut 2)}" pos (some (.timer now del))
+        s!"{showNames mDel} {showOut (mOut 0)} {showOut (mOut 1)} {showOut (mOut 2)}" pos (some (.timer now del [oA, oB, oC]))
     | _, _, _, _, _ => bad
   | ["ack", p, v], [pos] =>
     match parsePeer p, parseInt? v with
@@ -309,4 +323,4 @@ def handle (d : DSt) (n : Nat) (line : String) : IO DSt := do
 def main : IO Unit := do
   let stdin ← IO.getStdin
   let d ← foldLines stdin handle ({} : DSt)
-  IO.println s!"STATS cases={d.caseNo} steps={d.steps} relays={d.relays} logged={d.logged} replays={d.replays} probes={d.probes} damaged_replays={d.damagedReplays} delivered={d.delivered} setpos_in_replay={d.setposSeen} rotations={d.rotations} deletions={d.deletions} restarts={d.restarts} recv_dropped={d.recvDropped} skipped_advances={d.skippedAdv} nontrivial={d.nontrivial} mismatches={d.mismatches} specfails={d.specfails} died={d.died}"
+  IO.println s!"STATS cases={d.caseNo} steps={d.steps} relays={d.relays} logged={d.logged} replays={d.replays} probes={d.probes} damaged_replays={d.damagedReplays} delivered={d.delivered} setpos_in_replay={d.setposSeen} rotations={d.rotations} deletions={d.deletions} restarts={d.restarts} recv_dropped={d.recvDropped} skipped_advances={d.skippedAdv} nontrivial={d.nontrivial} mismatches={d.mismatches} specfails={d.specfails} died={d.died} confirm_beyond_replay_file_name={d.confReplay} confirm_beyond_other={d.confOther}"
